@@ -124,6 +124,10 @@ pub fn eval(index: u64, s: &str, st: &mut Stats) -> &'static str {
     }
 }
 
+pub fn corpus_pub(thorough: bool) -> Vec<String> {
+    corpus(thorough)
+}
+
 fn corpus(thorough: bool) -> Vec<String> {
     let mut set: BTreeSet<String> = BTreeSet::new();
     let years = ["0001", "0999", "1900", "2000", "2015", "2016", "2100", "9999", "0000"];
